@@ -102,6 +102,14 @@ def parseIntTok (t : String) : Option Int := t.toInt?
 def strOr (t : String) : Str := match parseStrArg t with | some s => s | none => "?bad".toList
 def optUrl (t : String) : Option Str := if t = "~" then none else parseStrArg t
 
+/-- `~` = empty, otherwise comma-separated positions -/
+def parseIdxList (t : String) : Option (List Nat) :=
+  if t = "~" then some [] else (t.splitOn ",").mapM (·.toNat?)
+
+/-- `~` = None -/
+def parseOptIdx (t : String) : Option (Option Nat) :=
+  if t = "~" then some none else t.toNat?.map some
+
 def stepLine (st : St) (toks : List String) : St :=
   let fail (m : String) : St := { st with bad := m :: st.bad }
   match toks with
@@ -167,17 +175,20 @@ def stepLine (st : St) (toks : List String) : St :=
           st.updLastOSvc fun s => { s with vars := s.vars ++
             [{ name := n, dataType := t, sendEvents := se = "1", min := mn, max := mx, allowed := al, default := df }] }
       | _, _, _, _, _, _ => fail s!"bad ovar {n}"
-  | ["oact", n] =>
-      match parseStrArg n with
-      | some n => st.updLastOSvc fun s => { s with actions := s.actions ++ [{ name := n, args := [] }] }
-      | none => fail "bad oact"
-  | ["oarg", n, d, r, rt, b] =>
-      match parseStrArg n, parseStrArg d, parseStrArg r, parseStrArg rt with
-      | some n, some d, some r, some rt =>
+  | ["oact", n, ins, outs] =>
+      match parseStrArg n, parseIdxList ins, parseIdxList outs with
+      | some n, some ia, some oa =>
+          st.updLastOSvc fun s => { s with actions := s.actions ++
+            [{ name := n, args := [], inArgs := ia, outArgs := oa, byNameDir := [], byName := [] }] }
+      | _, _, _ => fail "bad oact"
+  | ["oarg", n, d, r, rt, b, lk, lkn] =>
+      match parseStrArg n, parseStrArg d, parseStrArg r, parseStrArg rt, parseOptIdx lk, parseOptIdx lkn with
+      | some n, some d, some r, some rt, some lk, some lkn =>
           let st := if b = "1" then st else { st with bad := "argument not bound to the service's variable object" :: st.bad }
           let g : ArgM := { name := n, direction := d, related := r, relatedType := rt }
-          st.updLastOSvc fun s => { s with actions := updLast s.actions (fun a => { a with args := a.args ++ [g] }) }
-      | _, _, _, _ => fail "bad oarg"
+          st.updLastOSvc fun s => { s with actions := updLast s.actions (fun a =>
+            { a with args := a.args ++ [g], byNameDir := a.byNameDir ++ [lk], byName := a.byName ++ [lkn] }) }
+      | _, _, _, _, _, _ => fail "bad oarg"
   | _ => fail s!"bad line {" ".intercalate toks}"
 
 /-- `allowed_values` is a set: sorted, duplicate-free by token -/
@@ -235,6 +246,7 @@ def firstOf {α : Type} [BEq α] (f : α → String) : List α → List α → S
 
 def fmtAct (a : ActM) : String :=
   sOf a.name ++ "(" ++ ",".intercalate (a.args.map fun g => s!"{sOf g.name}/{sOf g.direction}->{sOf g.related}:{sOf g.relatedType}") ++ ")"
+    ++ s!" in={a.inArgs} out={a.outArgs} argument(name,dir)={a.byNameDir} argument(name)={a.byName}"
 
 def diffSvc (x y : SvcM FV) : String :=
   if x.vars != y.vars then s!"svc {sOf x.serviceType} var: {firstOf fmtVar x.vars y.vars}"
